@@ -1,8 +1,26 @@
 From Coq Require Import List NArith Bool.
-From V.Mgr Require Import Model Caps Ledger.
+From V.Mgr Require Import Model Caps Ledger LedgerInv.
 Import ListNotations.
 Open Scope N_scope.
 From V.C05 Require Import Properties.
+Check (C05_ledger_invariant_step :
+  forall L m g e, LInv m g -> feas m g e -> LInv (fst (step L m e)) (gstep e (snd (step L m e)) g)).
+Check (C05_at_most_one_outcome :
+  forall L es, feasible L init g0 es -> NoDup (terminals L init es)).
+Check (C05_no_silence :
+  forall L es, feasible L init g0 es ->
+  let '(m, g) := lrun L init g0 es in
+  quiescent m g ->
+  forall c p, lookup c (g_att g) = Some p ->
+    In c (g_done g) \/ (In c (g_super g) /\ In p (g_rep g)) \/ In c (g_limrej g)).
+Check (C05_no_wedge :
+  forall L es, feasible L init g0 es ->
+  let '(m, g) := lrun L init g0 es in
+  quiescent m g -> forall p, settled (state_of m p)).
+Check (C05_pending_is_owed :
+  forall L es, feasible L init g0 es ->
+  let '(m, g) := lrun L init g0 es in
+  forall p c, dial_record (state_of m p) = Some c -> owed g c).
 Check (C05_redial_attempted :
   forall L m p,
   state_of m p = Disconnected None -> mem p (known m) = true -> p <> LOCAL ->
